@@ -272,18 +272,18 @@ func (c *Ctx) Finish(start time.Time, extra map[string]any) int {
 		distinct[o.Rule+"|"+o.Key] = true
 	}
 	cov := map[string]any{
-		"explanation": "static analysis of /repo's type-checked source (go/packages + go/ssa + go/cfg); each obligation is one construct (function, call site, case arm, field, table cell) decided by the named rule; nothing under /repo is executed",
-		"obligations": len(c.Obls),
-		"discharged":  nDis,
-		"known_findings": nKnown,
+		"explanation":           "static analysis of /repo's type-checked source (go/packages + go/ssa + go/cfg); each obligation is one construct (function, call site, case arm, field, table cell) decided by the named rule; nothing under /repo is executed",
+		"obligations":           len(c.Obls),
+		"discharged":            nDis,
+		"known_findings":        nKnown,
 		"violated_or_undecided": nViol,
-		"undecided":   nUnd,
-		"undecided_policy": "an undecided obligation (shape not recognised, instance floor not met) is reported as UNDECIDED and does not fail the check unless VERIF_STRICT=1; only decided contradictions are violations",
-		"evaluations": len(c.Obls),
-		"distinct_nontrivial": len(distinct),
-		"rule":        "one evaluation = one obligation (rule instance on one construct of the current tree); distinct = distinct rule+construct keys; every obligation is non-trivial in that it was generated from a construct found in the source, not from a constant list",
-		"rules":       rules,
-		"samples":     samples,
+		"undecided":             nUnd,
+		"undecided_policy":      "an undecided obligation (shape not recognised, instance floor not met) is reported as UNDECIDED and does not fail the check unless VERIF_STRICT=1; only decided contradictions are violations",
+		"evaluations":           len(c.Obls),
+		"distinct_nontrivial":   len(distinct),
+		"rule":                  "one evaluation = one obligation (rule instance on one construct of the current tree); distinct = distinct rule+construct keys; every obligation is non-trivial in that it was generated from a construct found in the source, not from a constant list",
+		"rules":                 rules,
+		"samples":               samples,
 		"analysed": map[string]any{
 			"repo_dir": c.P.Dir, "build_tags": c.P.Tags, "packages": len(c.P.All),
 			"files": c.P.nFiles, "declared_functions": c.P.nFuncs,
